@@ -4,7 +4,8 @@ Functions under contract (real source, whole functions):
   Generator.get_indexed_symbol   (pymoca.backends.casadi.generator)
   ForLoop.register_indexed_symbol
 Inputs are symbolic: every dimension n >= 0, every integer subscript i, every slice bound a, b
-(or absent) and every step s >= 1 -- all integers, no window.  The *shape* of the reference is
+(or absent) and every integer step s (positive: ascending range; negative: descending range, accepted only if selected exactly;
+zero: must be rejected) -- all integers, no window.  The *shape* of the reference is
 enumerated (1-D, 2-D of one component, two nested components with one subscript each), which is the
 code's own limit (it asserts at most two array dimensions).
 
@@ -283,8 +284,15 @@ def sym_subscript(eng, label, kinds):
         a = eng.input(label + ".start", eng.fresh_int(label + "a")) if shape in (0, 1) else eng.input(label + ".start", None)
         b = eng.input(label + ".stop", eng.fresh_int(label + "b")) if shape in (0, 2) else eng.input(label + ".stop", None)
         s = eng.input(label + ".step", eng.fresh_int(label + "s"))
-        eng.assume(s >= 1)   # negative / zero steps: outside the decided scope (stated in DESIGN)
-        return IndexNode(VSlice(a, b, s)), ("slice", a, b, s)
+        # every integer step: positive (ascending range), negative (descending range: Modelica a:s:b with s < 0 has both bounds
+        # given) and zero (not a range at all).  A subscript expression such as x[3:-n:1] with a parameter n reaches the slice branch
+        # with a negative step, so no sign may be assumed.
+        sign = ["positive", "negative", "zero"][eng.choice(3)]
+        eng.input(label + ".step_sign", sign)
+        eng.assume(s >= 1 if sign == "positive" else (s <= -1 if sign == "negative" else s == 0))
+        if sign != "positive" and (a is None or b is None):
+            raise_path_end()
+        return IndexNode(VSlice(a, b, s)), ("slice", a, b, s, sign)
     if k == "whole":
         return None, ("whole",)
     raise AssertionError(k)
@@ -317,8 +325,13 @@ def check_position(eng, prefix, desc, key, n):
             eng.prove(prefix + ".int.zero_based", ops.to_arith(key) == i - 1)
         return
     if desc[0] == "whole":
-        desc = ("slice", None, None, z3.IntVal(1))   # an absent subscript denotes 1:n
-    _, a, b, s = desc
+        desc = ("slice", None, None, z3.IntVal(1), "positive")   # an absent subscript denotes 1:n
+    _, a, b, s, sign = desc
+    if sign == "zero":
+        eng.prove(prefix + ".slice.zero_step_is_rejected", False, note="a slice with step 0 was accepted")
+        return
+    if sign == "negative":
+        return check_descending(eng, prefix, a, b, s, key, n)
     if not isinstance(key, VSlice):
         eng.prove(prefix + ".slice.is_slice", False)
         return
@@ -341,6 +354,28 @@ def check_position(eng, prefix, desc, key, n):
     eng.prove(prefix + ".slice.first_element", z3.Implies(nonempty, lo == first - 1))
     eng.prove(prefix + ".slice.last_bound", z3.Implies(nonempty, hi == last))
     eng.prove(prefix + ".slice.empty_stays_empty", z3.Implies(z3.Not(nonempty), lo >= hi))
+
+
+def check_descending(eng, prefix, a, b, s, key, n):
+    """Modelica a:s:b with s < 0 denotes a, a+s, ... >= b (non-empty iff a >= b).  If the code accepts it, the Python key must select
+    exactly those elements under Python's negative-step slice semantics, and a non-empty range must lie in 1..n."""
+    if not isinstance(key, VSlice):
+        eng.prove(prefix + ".slice.is_slice", False)
+        return
+    A, B, S = key.start, key.stop, key.step
+
+    def norm(p, default):
+        if p is None:
+            return default
+        p = ops.to_arith(p)
+        return z3.If(p < 0, z3.If(p + n < 0, z3.IntVal(-1), p + n), z3.If(p >= n, n - 1, p))
+    lo, hi = norm(A, n - 1), norm(B, z3.IntVal(-1))       # first index taken, exclusive lower end
+    nonempty = a >= b
+    eng.prove(prefix + ".slice.step_kept", z3.BoolVal(False) if S is None else ops.to_arith(S) == s)
+    eng.prove(prefix + ".slice.descending.in_range", z3.Implies(nonempty, z3.And(b >= 1, a <= n)))
+    eng.prove(prefix + ".slice.descending.first_element", z3.Implies(nonempty, lo == a - 1))
+    eng.prove(prefix + ".slice.descending.last_bound", z3.Implies(nonempty, hi == b - 2))
+    eng.prove(prefix + ".slice.descending.empty_stays_empty", z3.Implies(z3.Not(nonempty), lo <= hi))
 
 
 def dims_input(eng, label):
@@ -391,7 +426,8 @@ def h_constant_subscripts(eng):
             elif d[0] == "slice":
                 first = z3.IntVal(1) if d[1] is None else d[1]
                 last = n if d[2] is None else d[2]
-                allin.append(z3.And(first >= 1, last <= n, first <= last))
+                # (only ascending ranges must be accepted: rejecting a descending or zero-step slice loudly is allowed)
+                allin.append(z3.And(first >= 1, last <= n, first <= last, z3.BoolVal(d[4] == "positive")))
         eng.prove("const.no_error_for_valid_subscripts", z3.Not(z3.And(allin)), exc=repr(e.exc))
         return
     eng.cover("const.returns")
@@ -542,7 +578,7 @@ TRUSTED = ["pyvc VC generator", "z3 5.1.0 / cvc5 1.0.3",
            "assumed contract of casadi.MX.__getitem__ (int k: 0<=k<n selects k, negative wraps, k>=n raises; slice: Python semantics, raises when stop > n, start > n or start < -n) -- sampled by replay/C23.py",
            "Generator.get_integer returns the integer / slice(start, stop, step) denoted by the subscript expression (its own contract, not verified here)"]
 ASSUMPTIONS = [
-    "slice steps are >= 1 (negative or zero steps are outside the decided scope)",
+    "slice steps: every integer; for negative steps both bounds are given (Modelica has no open-ended descending range)",
     "at most two array dimensions in total (the code's own assertion); layouts enumerated: 1-D, 2-D of one component, two nested components with one subscript each",
     "the values of a for-loop variable are an arbitrary set of integers; the value set of a mapped index expression f(i) is an arbitrary set of integers",
     "partial index lists on arrays of components (fewer subscript levels than shape levels) are NOT covered here: the statement speaks about out-of-range subscripts; see DESIGN.md C23/C11",
@@ -551,7 +587,7 @@ DROPPED = ["error-message formatting (str.format) is an uninterpreted string", "
 EXPLANATION = "Whole-function symbolic execution of get_indexed_symbol / register_indexed_symbol for all integer subscripts, slice bounds and dimensions."
 MANIFEST = {
     "category": "proof",
-    "text": "The real get_indexed_symbol and ForLoop.register_indexed_symbol are executed symbolically for every integer subscript, slice bound, step >= 1 and dimension (no window): a normal return implies the subscript lies in 1..n and the key handed to CasADi selects exactly the Modelica elements under Python/CasADi slice semantics; subscripts on scalars and surplus subscripts raise. A bounded replay through generate() on real models runs beside it.",
-    "note": "Assumed: casadi.MX.__getitem__ contract (sampled in the replay), get_integer's meaning, step >= 1, <= 2 array dimensions; partial index lists on component arrays are outside this check.",
+    "text": "The real get_indexed_symbol and ForLoop.register_indexed_symbol are executed symbolically for every integer subscript, slice bound, step (positive, negative or zero) and dimension (no window): a normal return implies the subscript lies in 1..n and the key handed to CasADi selects exactly the Modelica elements under Python/CasADi slice semantics; subscripts on scalars and surplus subscripts raise. A bounded replay through generate() on real models runs beside it.",
+    "note": "Assumed: casadi.MX.__getitem__ contract (sampled in the replay), get_integer's meaning, <= 2 array dimensions; partial index lists on component arrays are outside this check.",
     "technique": "contract-based deductive verification: whole-function symbolic execution of the real source with symbolic integers, VCs discharged by z3/cvc5",
 }
